@@ -7,7 +7,7 @@ use crate::json::Json;
 
 pub fn meta(_ctx: &Ctx) -> Meta {
     Meta {
-        rule: "every shape (c,h,w) in {1..4}^3 plus (1,1,7),(5,1,2),(2,6,1); every ordered 3-D->3-D pair; vector(n)<->3-D for n in 0..=64 against every shape; seven large shapes (1024..3072 elements, tall / wide / square) against each other and their vectors; ops flatten/get_flat/get_triple/reshape and there-and-back; contents 0,1,2,.. (pairwise distinct). Non-trivial = a case with >=2 elements whose target nesting differs from the source nesting".into(),
+        rule: "every shape (c,h,w) in {1..4}^3 plus (1,1,7),(5,1,2),(2,6,1); every ordered 3-D->3-D pair; vector(n)<->3-D for n in 0..=64 against every shape; seven large shapes (1024..3072 elements, tall / wide / square) against each other and their vectors; ops flatten/get_flat/get_triple/reshape and there-and-back; every case with three kinds of contents: 0,1,2,.. (pairwise distinct); zeros and subnormal numbers only; a cycle through -0, subnormals, 1e-30, +-1e-5, 1+-ulp, +-MAX, +-inf and NaN - compared as bit patterns. Non-trivial = a case with >=2 elements whose target nesting differs from the source nesting".into(),
         bound: "extents <= 4 (thorough 5) plus elongated and large shapes, vector lengths <= 64 (thorough 128); complete within the bound".into(),
         exhaustive: true,
         assumptions: vec!["vector->vector reshape and get_triple are only exercised with equal counts (the refusal clause names vector<->3-D and 3-D<->3-D)".into()],
@@ -27,15 +27,30 @@ fn shapes(max: usize) -> Vec<Dims> {
     v
 }
 
-fn content(n: usize) -> Vec<f32> {
-    (0..n).map(|i| i as f32).collect()
+/// element contents: "idx" = 0,1,2,.. (pairwise distinct); "sub" = zeros and subnormal numbers only (+-k * 2^-149);
+/// "special" = a cycle through -0, subnormals, 1e-30, values within 1e-5 of 0 and of 1, +-MAX, +-inf and a NaN.
+/// Moving data must not look at it: the comparison is on bit patterns.
+fn content(kind: &str, n: usize) -> Vec<f32> {
+    const SPECIAL: [u32; 14] = [
+        0x8000_0000, 0x0000_0001, 0x8000_0003, 0x0D24_2880, 0x3727_C5AC, 0xB727_C5AC, 0x3F80_0001, 0x3F7F_FFFF, 0x7F7F_FFFF, 0xFF7F_FFFF, 0x7F80_0000,
+        0xFF80_0000, 0x7FC0_0001, 0x0000_0000,
+    ];
+    match kind {
+        "sub" => (0..n).map(|i| f32::from_bits(((i % 5) as u32) | if i % 3 == 0 { 0x8000_0000 } else { 0 })).collect(),
+        "special" => (0..n).map(|i| f32::from_bits(SPECIAL[i % 14].wrapping_add(if SPECIAL[i % 14] & 0x7F80_0000 == 0x7F80_0000 { 0 } else { (i / 14) as u32 }))).collect(),
+        _ => (0..n).map(|i| i as f32).collect(),
+    }
+}
+
+fn same(a: &[f32], b: &[f32]) -> bool {
+    a.len() == b.len() && a.iter().zip(b).all(|(x, y)| x.to_bits() == y.to_bits())
 }
 
 /// one case: reshape `from` -> `to` (and back when accepted)
 pub fn check(case: &Kv, rep: &mut Report) {
     let from = Dims::parse(case.get("from"));
     let to = Dims::parse(case.get("to"));
-    let data = content(from.count());
+    let data = content(case.opt("content").unwrap_or("idx"), from.count());
     let src = tensor(from, &data);
     rep.states += 1;
     rep.evaluations += 1;
@@ -49,13 +64,13 @@ pub fn check(case: &Kv, rep: &mut Report) {
             Ok((f, g)) => {
                 match flat_dims(&f) {
                     Ok((d, v)) => {
-                        if d != Dims::Flat(from.count()) || v != data {
+                        if d != Dims::Flat(from.count()) || !same(&v, &data) {
                             rep.violate("C14 flatten", format!("flatten of {} gave {:?} {:?}", from.name(), d, v), case);
                         }
                     }
                     Err(e) => rep.violate("C14 flatten shape/data", e, case),
                 }
-                if g != data {
+                if !same(&g, &data) {
                     rep.violate("C14 get_flat", format!("get_flat of {} gave {:?}", from.name(), g), case);
                 }
             }
@@ -86,7 +101,7 @@ pub fn check(case: &Kv, rep: &mut Report) {
             if d != to {
                 rep.violate("C14 reshape recorded shape", format!("reshape {} -> {} recorded {:?}", from.name(), to.name(), d), case);
             }
-            if v != data {
+            if !same(&v, &data) {
                 rep.violate("C14 reshape order", format!("reshape {} -> {} gave sequence {:?}", from.name(), to.name(), v), case);
             }
         }
@@ -100,7 +115,7 @@ pub fn check(case: &Kv, rep: &mut Report) {
     match guard(|| t.clone().reshape(lib_shape(from))) {
         Ok(b) => match flat(&b) {
             Ok((s, v)) => {
-                if s != lib_shape(from) || v != data {
+                if s != lib_shape(from) || !same(&v, &data) {
                     rep.violate("C14 round trip", format!("{} -> {} -> back gave {:?} {:?}", from.name(), to.name(), s, v), case);
                 }
             }
@@ -115,7 +130,7 @@ pub fn check(case: &Kv, rep: &mut Report) {
             Ok(d) => {
                 let ok = d.len() == c && d.iter().all(|x| x.len() == h && x.iter().all(|r| r.len() == w));
                 let v: Vec<f32> = d.iter().flatten().flatten().copied().collect();
-                if !ok || v != data {
+                if !ok || !same(&v, &data) {
                     rep.violate("C14 get_triple", format!("get_triple {} -> {} gave {:?}", from.name(), to.name(), d), case);
                 }
             }
@@ -158,7 +173,9 @@ pub fn cases(thorough: bool) -> Vec<Kv> {
 }
 
 pub fn run(ctx: &Ctx) -> Report {
-    let cs = cases(ctx.tier.thorough());
+    let mut cs = cases(ctx.tier.thorough());
+    let extra: Vec<Kv> = cs.iter().flat_map(|c| ["sub", "special"].into_iter().map(move |k| c.clone().put("content", k))).collect();
+    cs.extend(extra);
     let parts = par_map(&cs, |_, c| {
         let mut r = Report::new();
         check(c, &mut r);
